@@ -242,6 +242,16 @@ def run(ctx):
                  must_hold=False, timeout=600)
     if not nf.violated:
         raise RuntimeError('non-vacuity: RandomStateMech without finally not refuted')
+    # 1b. the isolation property as an inductive invariant (Apalache, spec/apalache/RngScopes.tla): no bound on draws and calls
+    from .. import apalache as AP
+    ind = AP.inductive('RngScopes')
+    ctx.extra['apalache_inductive_isolation'] = ind
+    vals = list(ind.values())
+    if not any(v.startswith('unavailable') for v in vals):
+        if vals[:3] != ['NoError'] * 3:
+            raise RuntimeError('RngScopes: the inductive argument for Isolation fails on the unchanged specification: %s' % ind)
+        if vals[3] != 'Error':
+            raise RuntimeError('RngScopes: non-vacuity - the step without the finally block is not refuted: %s' % ind)
     # 2. mechanism bound to copulas.utils
     r = T.run('RandomStateMech', os.path.join(CFG, 'RandomStateMech.gen.cfg'), workers=1,
               simulate='num=%d' % (300 if quick else 3000), depth=40, seed=ctx.seed + 1, timeout=600)
